@@ -151,7 +151,8 @@ def corner_schemas():
                       header("hdr", tid=1, sid=4, ver=8, order=["version", "templateId", "blockLength", "schemaId"], gaps={"blockLength": 2}, ref_bl="BL64", counters=True),
                       [
                           T("BL64", "uint64"),
-                          dimension("dim_8_32", bl=1, num=4, order=("numInGroup", "blockLength"), gap=("blockLength", 3)),
+                          T("Cnt32", "uint32"),
+                          dimension("dim_8_32", bl=1, num=4, order=("numInGroup", "blockLength"), gap=("blockLength", 3), ref_num="Cnt32"),
                           dimension("dim_64_64", bl=8, num=8, counters=True),
                           vardata("data8", 1, "char"),
                           vardata("data64", 8),
